@@ -172,8 +172,16 @@ func (c *ChangesCursor) Next() error {
 			c.eof = true
 			return nil
 		}
+		if err != nil {
+			return toSqlite(fmt.Errorf("diff: %w", err))
+		}
 		if de.NewValue != nil {
-			c.currentRow = de.NewValue.(*v1proto.Row)
+			row, _ := de.NewValue.(*v1proto.Row)
+			if row == nil || row.Deleted {
+				// deleted between the two versions: not a row of "to"
+				continue
+			}
+			c.currentRow = row
 			c.currentKey = de.Key.(*s3db.Key)
 			return nil
 		}
